@@ -1259,6 +1259,41 @@ func (a *Analysis) step(st State, n ast.Node) State {
 		st = a.callKills(st, x)
 		if len(x.Lhs) == len(x.Rhs) && len(x.Lhs) == 1 {
 			st = a.assign(st, x.Lhs[0], x.Rhs[0], x.Tok)
+		} else if len(x.Lhs) == len(x.Rhs) && len(x.Lhs) > 1 && (x.Tok == token.ASSIGN || x.Tok == token.DEFINE) {
+			// a, b = e1, e2: the right-hand sides are evaluated first
+			rts := make([]*Term, len(x.Rhs))
+			for i, r := range x.Rhs {
+				if !isBool(a.Fn.Info.TypeOf(r)) {
+					if t := a.term(r); t != nil && a.Fn.Eng.Canon.PureTerm(t) {
+						rts[i] = t
+					}
+				}
+			}
+			var lts []*Term
+			for _, l := range x.Lhs {
+				st = a.killLHS(st, l)
+				if id, ok := ast.Unparen(l).(*ast.Ident); ok && id.Name != "_" {
+					if obj := a.Fn.Info.ObjectOf(id); obj != nil && !a.Fn.volatile[obj] {
+						lts = append(lts, Var(obj))
+						continue
+					}
+				}
+				lts = append(lts, nil)
+			}
+			for i, rt := range rts {
+				if rt == nil || lts[i] == nil || !st.Reachable() {
+					continue
+				}
+				clash := false
+				for _, lt := range lts {
+					if lt != nil && rt.Mentions(func(s *Term) bool { return s.key == lt.key }) {
+						clash = true
+					}
+				}
+				if !clash {
+					st = st.Assume(FEq(lts[i], rt))
+				}
+			}
 		} else if s := a.tupleSite(x); s != nil {
 			// v1, v2 := helper(...) with the helper expanded: each variable takes its result temporary
 			for k, l := range x.Lhs {
